@@ -98,4 +98,75 @@ theorem collate_masked_field (pad : S) (fuel : Nat) (x : MT S) (xs : List (MT S)
 example : (padMasked [ex1, ex2, ex3] 9).map (fun r => (r.tensor.shape, r.tensor.data, r.mask.data)) =
     some ([3, 2, 2], [1, 2, 3, 4, 9, 9, 9, 9, 5, 6, 9, 9], [true, false, true, true, false, false, false, false, false, true, false, false]) := by decide
 
+/-! ### dictionaries: fields are matched by key -/
+
+theorem find_key_iff {α : Type} (fs : List (String × α)) (hnd : (fs.map (·.1)).Nodup) (k : String) (kv : String × α) :
+    fs.find? (·.1 == k) = some kv ↔ kv ∈ fs ∧ kv.1 = k := by
+  induction fs with
+  | nil => simp
+  | cons a as ih =>
+    simp only [List.map_cons, List.nodup_cons] at hnd
+    simp only [List.find?_cons]
+    by_cases hak : a.1 = k
+    · simp only [hak, beq_self_eq_true, Option.some.injEq, List.mem_cons]
+      constructor
+      · rintro rfl; exact ⟨Or.inl rfl, hak⟩
+      · rintro ⟨h | h, hk⟩
+        · exact h.symm
+        · exfalso; apply hnd.1; rw [hak, ← hk]; exact List.mem_map_of_mem h
+    · have : (a.1 == k) = false := by simpa using hak
+      simp only [this, List.mem_cons]
+      rw [ih hnd.2]
+      constructor
+      · rintro ⟨h, hk⟩; exact ⟨Or.inr h, hk⟩
+      · rintro ⟨h | h, hk⟩
+        · subst h; exact absurd hk hak
+        · exact ⟨h, hk⟩
+
+/-- Fields are matched by key: looking a field up does not depend on the order in which an example lists its (distinctly named) fields. -/
+theorem field_order (fs fs' : List (String × Datum S)) (hp : fs.Perm fs') (hnd : (fs.map (·.1)).Nodup) (k : String) :
+    (Datum.dict fs).field? k = (Datum.dict fs').field? k := by
+  have hnd' : (fs'.map (·.1)).Nodup := (hp.map _).nodup_iff.mp hnd
+  simp only [Datum.field?]
+  cases h : fs.find? (·.1 == k) with
+  | none =>
+    cases h' : fs'.find? (·.1 == k) with
+    | none => rfl
+    | some kv =>
+      have := (find_key_iff fs' hnd' k kv).mp h'
+      have hm : kv ∈ fs := hp.mem_iff.mpr this.1
+      have := (find_key_iff fs hnd k kv).mpr ⟨hm, this.2⟩
+      rw [h] at this; cases this
+  | some kv =>
+    have := (find_key_iff fs hnd k kv).mp h
+    have hm : kv ∈ fs' := hp.mem_iff.mp this.1
+    rw [(find_key_iff fs' hnd' k kv).mpr ⟨hm, this.2⟩]
+
+/-- two batches whose examples are dictionaries with the same fields, listed in possibly different orders -/
+inductive SameFields : List (Datum S) → List (Datum S) → Prop
+  | nil : SameFields [] []
+  | cons (fs fs' : List (String × Datum S)) (r r' : List (Datum S)) (hp : fs.Perm fs') (hnd : (fs.map (·.1)).Nodup) (h : SameFields r r') :
+      SameFields (.dict fs :: r) (.dict fs' :: r')
+
+theorem mapM_field_order (k : String) : ∀ {b b' : List (Datum S)}, SameFields b b' → (b.mapM fun x => x.field? k) = (b'.mapM fun x => x.field? k)
+  | _, _, .nil => rfl
+  | _, _, .cons fs fs' r r' hp hnd h => by
+    simp only [List.mapM_cons]
+    rw [field_order fs fs' hp hnd k, mapM_field_order k h]
+
+/-- Collating dictionaries matches the fields by KEY: whatever order the later examples list their fields in, the batch is the same
+    (the first example fixes the order of the result). -/
+theorem collate_dict_order (pad : S) (fuel : Nat) (fields : List (String × Datum S)) (rest rest' : List (Datum S)) (h : SameFields rest rest') :
+    zeroPadCollator pad fuel (.dict fields :: rest) = zeroPadCollator pad fuel (.dict fields :: rest') := by
+  cases fuel with
+  | zero => simp [zeroPadCollator]
+  | succ fuel =>
+    have hm : ∀ k : String, ((Datum.dict fields :: rest).mapM fun (b : Datum S) => b.field? k) = ((Datum.dict fields :: rest').mapM fun (b : Datum S) => b.field? k) := by
+      intro k
+      simp only [List.mapM_cons]
+      rw [mapM_field_order k h]
+    simp only [zeroPadCollator, hm]
+
+example : SameFields (S := Nat) [.dict [("a", .int 1), ("b", .str "x")]] [.dict [("b", .str "x"), ("a", .int 1)]] :=
+  .cons _ _ _ _ (List.Perm.swap _ _ _) (by decide) .nil
 end PoseVerif.Props.C20
